@@ -390,7 +390,30 @@ def check_covariance(res, entry: str, cls: str, exp_cov=None) -> list:
     """(N-1)/N sum (x_k - mean)(x_k - mean)^T of exactly the reported samples; symmetric; PSD; error = sqrt(diag)."""
     out = []
     samples = np.array(res.samples, dtype=np.float64)  # a copy: covariance/error must not touch the samples
-    if samples.shape[0] < 2 or not np.all(np.isfinite(samples)):
+    if samples.shape[0] < 2:
+        return out
+    if not np.all(np.isfinite(samples)):
+        # an undefined sample (0/0 of a sparse bin) makes the formula undefined for that bin: the covariance of EXACTLY
+        # these samples is undefined in its row and column (no pairwise-complete substitute), the rest is unaffected
+        badc = ~np.all(np.isfinite(samples), axis=0)
+        with np.errstate(all="ignore"), warnings.catch_warnings():
+            warnings.simplefilter("ignore")
+            cov = np.asarray(res.covariance)
+            err = np.asarray(res.error)
+        nb = samples.shape[1]
+        detail = dict(product=entry, input_class=cls, samples=samples.tolist(), covariance=cov.tolist(), error=err.tolist())
+        if cov.shape != (nb, nb) or err.shape != (nb,):
+            return [("C03|SampledData.covariance|samples_with_undefined_entries|shape", detail)]
+        if np.any(np.isfinite(cov[badc, :])) or np.any(np.isfinite(cov[:, badc])) or np.any(np.isfinite(err[badc])):
+            out.append(("C03|SampledData.covariance|samples_with_undefined_entries|finite_where_the_formula_is_undefined", detail))
+        good = ~badc
+        if good.any():
+            want = jackknife_cov(samples[:, good])
+            scale = max(1.0, float(np.max(np.abs(want))))
+            sub = cov[np.ix_(good, good)]
+            if not np.allclose(sub, want, rtol=1e-9, atol=1e-12 * scale):
+                out.append(("C03|SampledData.covariance|samples_with_undefined_entries|defined_bins_not_delete_one_jackknife_covariance",
+                            dict(detail, expected_defined_block=want.tolist())))
         return out
     with np.errstate(all="ignore"), warnings.catch_warnings():
         warnings.simplefilter("ignore")
@@ -1303,10 +1326,13 @@ def conditioning(ctx, yaw, root) -> None:
         cases[f"offset_1e7_scatter_10_n{n}"] = 1e7 + np.round(10 * rng.standard_normal((n, 3)))
         cases[f"identical_rows_n{n}"] = np.tile(np.array([[0.1, 1234.5678, 3e-7]]), (n, 1))
         cases[f"one_column_constant_n{n}"] = np.column_stack([np.full(n, 7.3), rng.standard_normal(n), 1e3 + 1e-3 * rng.standard_normal(n)])
+    nan_case = 1.0 + 0.1 * rng.standard_normal((6, 3))
+    nan_case[2, 1] = np.nan          # one jackknife sample of the middle bin undefined
+    cases["one_sample_undefined_n6"] = nan_case
     products = []
     for name, smp in cases.items():
         for kind in ("CorrData", "RedshiftData"):
-            obj = getattr(yaw, kind)(binning, smp.mean(axis=0), smp)
+            obj = getattr(yaw, kind)(binning, np.nanmean(smp, axis=0), smp)
             products.append((kind, name, obj, smp))
     # a gridded catalog: every patch holds the same weight per bin, so the histogram samples are all equal
     NP = 6
@@ -1324,6 +1350,10 @@ def conditioning(ctx, yaw, root) -> None:
         smp = np.asarray(obj.samples, dtype=np.float64)
         ctx.evaluated(1, ("conditioning", kind, name))
         ctx.validated(1)
+        if not np.all(np.isfinite(smp)):
+            for key, det in check_covariance(obj, kind, name):
+                ctx.violation(key, det)
+            continue
         with np.errstate(all="ignore"), warnings.catch_warnings():
             warnings.simplefilter("ignore")
             cov = np.asarray(obj.covariance)
